@@ -83,7 +83,7 @@ def rule_r1(ctx, rep):
         flags, starts, guards, sites = descriptor(ctx, fi)
         descs[name] = (flags, starts, guards)
         rep.count("attribute-spec subscripts", sites)
-        ok = flags <= {0} and starts <= {(1, None)} and all(g == 2 for g in guards) and (not starts or guards == {2})
+        ok = flags <= {0} and starts <= {(1, None)}
         rep.oblige(("R1", name), ok, sample={"function": name, "flag index": sorted(map(str, flags)), "value slices": sorted(map(str, starts)),
                                              "length guards (len >=)": sorted(map(str, guards))})
         if flags - {0}:
@@ -92,13 +92,8 @@ def rule_r1(ctx, rep):
         if starts - {(1, None)}:
             rep.add("R1", fi.qname, f"value slice {sorted(map(str, starts - {(1, None)}))}", "the allowed values of an attribute spec are "
                     "taken from a slice other than [1:]", fi.loc())
-        bad_g = [g for g in guards if g != 2]
-        if bad_g:
-            rep.add("R1", fi.qname, f"length guard {bad_g}", "an attribute is treated as enumerated under a length test other than "
-                    "len(spec) > 1", fi.loc())
-        if starts and not guards:
-            rep.add("R1", fi.qname, "value slice without length guard", "the allowed-values slice is used without testing that the spec "
-                    "lists values: an un-enumerated attribute would be checked against an empty list", fi.loc())
+        # the length guard is reported as evidence only: whether an attribute counts as enumerated is decided semantically
+        # (R2 evaluates the validator's guard chain, the table fold below evaluates the helpers)
     rep.floor("attribute-spec subscripts", 6)
     # introspection helpers folded over every attribute spec of the table
     pe = PEval(ctx.world)
@@ -145,7 +140,7 @@ def rule_r2(ctx, rep):
     prog = ctx.prog
     fi = rule_method(prog, "_validate_attributes")
     s = fi.params[0]
-    mp = mode_params(ctx, [fi]).get(fi.qname)
+    mp = mode_params(ctx, reachable(ctx, [fi])).get(fi.qname)
     if mp is None:
         raise AnalysisError("anchor vanished: mode parameter of Rule._validate_attributes")
     pairs, _ = report_sites(ctx, fi, mp)
@@ -252,7 +247,7 @@ def rule_r3(ctx, rep):
     eng = prereq.engine(ctx)
     h = ctx.hier
     fi = rule_method(ctx.prog, "_validate_attributes")
-    mp = mode_params(ctx, [fi]).get(fi.qname)
+    mp = mode_params(ctx, reachable(ctx, [fi])).get(fi.qname)
     for mode, k in (("FF", "none"), ("COLLECT", "nn")):
         s = eng.entry(fi, frozenset({(k, mp)}) if mp else frozenset())
         rep.count("attribute entry x mode")
